@@ -26,8 +26,7 @@ def run(tier, seed):
     # predicates of the known-finding classes of the value properties: the same inputs crash here too
     ck.preds.update({("c02_" + k[4:]): v for k, v in c04.PREDS.items()})
     ck.preds.update({("c02_" + k): v for k, v in c05.PREDS.items()})
-    ck.preds.update(c02_trace_diagonal=c16.trace_diagonal, c02_matmul_1d_operand=c16.matmul_1d_operand, c02_conv_batch=c17.conv_batch,
-                    c02_conv_unequal_dilation=c17.conv_unequal_dilation, c02_conv_groups_blocks=c17.conv_groups_blocks)
+    ck.preds.update(c02_trace_diagonal=c16.trace_diagonal, c02_matmul_1d_operand=c16.matmul_1d_operand)
     step = 3 if quick else 1
     groups = [
         ("drv_views", [c for c in c03.load_cases("quick") if c03.supported(c)][::step] + c03.seeded(ck, 300 if quick else 3000)),
